@@ -189,6 +189,11 @@ for _h in _HEADERS:
 LAYOUT_SENSITIVE += [
     "x = [\n    1,\n    2,\n]\nprint(os.getcwd(), x)\n", "x = (os.getcwd() +\n     os.sep)\nprint(x)\n", "if os.sep:\n    print(1)\nelse:\n    print(2)\n",
     "with open(os.devnull) as f, \\\n        open(os.devnull) as g:\n    print(f, g)\n", "print(\n    os.getcwd()\n)\n", "from __future__ import annotations; x = os.sep\nprint(x)\n",
+    # the first statement that is no docstring / __future__ import shares its line with the end of the statement before it; docstrings
+    # that are parenthesised, continued with a backslash or span several lines
+    "from __future__ import (\n    annotations,\n); x = os.sep\nprint(x)\n", "'''Doc.'''; x = os.sep\nprint(x)\n", "(\n    'doc'\n)\nprint(os.getcwd())\n",
+    "'doc' \\\n    'more'\nprint(os.getcwd())\n", "'''Doc\nmore\n'''\nprint(os.getcwd())\n",
+    "from __future__ import (annotations,\n                        division); import sys\nprint(os.sep, sys.argv)\n",
 ]
 
 
